@@ -90,11 +90,11 @@ impl<D: DataProvider<u64>> DataProvider<u64> for LoggingProvider<D> {
         self.inner.buffer_size()
     }
     unsafe fn get_mut(&self, sequence: Sequence) -> &mut u64 {
-        self.sched.log(format!("slot mut {sequence}"));
+        self.sched.sync_log(format!("slot mut {sequence}"));
         self.inner.get_mut(sequence)
     }
     unsafe fn get(&self, sequence: Sequence) -> &u64 {
-        self.sched.log(format!("slot ref {sequence}"));
+        self.sched.sync_log(format!("slot ref {sequence}"));
         self.inner.get(sequence)
     }
 }
